@@ -137,6 +137,28 @@ def run(chk):
         if got != o["expected"]:
             chk.violation("corpus program prints %s, the documented rules give %s" % (got, o["expected"]),
                           {"match_key": o.get("known"), "source": o["source"], "expected": o["expected"], "kind": "corpus"})
+    # destructor clause on arbitrary object graphs: heap-shape programs (sharing, cycles, temporaries) with a destructor in the class,
+    # collections disabled, against the reference-counting model (Life.Model); the variables of main die in hash-map order at the
+    # very end, so that tail is compared as a multiset
+    import heapgen
+    from framework import run_guarded
+    lps = []
+    while len(lps) < (3000 if chk.thorough else 300):
+        hp = heapgen.HeapProgram(rng, dtor=True)
+        if not any(o[0] in ("hold", "pendq") for o in hp.ops):
+            lps.append(hp)
+    limpl, _linc = run_guarded(evallib.harness(), ["gc %s 1 - none" % evallib.hx(hp.source()) for hp in lps], chunk_timeout=300)
+    lmod = driver(["life " + hp.model_ops() for hp in lps])[0]
+    for hp, a, m in zip(lps, limpl, lmod):
+        chk.count(("life", hp.model_ops()))
+        got = evallib.split_result(a).get("echo_lines") if a.startswith("ok ") else [a[:80]]
+        body, _, fin = m[len("trace "):].partition(" ## ")
+        wb = body.split("|") if body else []
+        wf = sorted(fin.split("|")) if fin else []
+        if not (got[:len(wb)] == wb and sorted(got[len(wb):]) == wf) and first is None:
+            first = ("object lifetime: implementation prints %s, reference counting prescribes %s then (in any order) %s" % (got, wb, wf),
+                     {"source": hp.source(), "model_line": "life " + hp.model_ops(), "kind": "lifetime"})
+    kinds["lifetime programs"] = len(lps)
     chk.extra["input_distribution"] = kinds
     chk.extra["harness_incident"] = str(incident)[:300] if incident else ""
     chk.sample({"model_line": cps[0].model_line(), "trace": model[0][:300]})
